@@ -1,5 +1,8 @@
 pub mod bencode;
+pub mod checks;
 pub mod explore;
 pub mod krpc;
+pub mod report;
 pub mod rng;
 pub mod sim;
+pub mod smoke;
